@@ -352,7 +352,7 @@ namespace sim
                   if( e.afam != top->afam || e.cfam != top->cfam ) {
                      ++f.switches;
                   }
-                  if( ( top->cls == RC::STATE || ( opens_state( top->cls ) && top->afam == 1 ) ) && top->scopes.empty() ) {
+                  if( e.rule != top->rule && ( top->cls == RC::STATE || ( opens_state( top->cls ) && top->afam == 1 ) ) && top->scopes.empty() ) {
                      cx.viol( "C13.life", "no-state:" + head_name( top->rule ), i, short_name( e.rule ) + " runs under " + short_name( top->rule ) + ", which has not constructed its state" );
                   }
                   if( e.sid != 0 && top->cur_sid != 0 && e.sid != top->cur_sid ) {
